@@ -5,12 +5,16 @@
 
 use crate::common::http::{parse_response, Framing, RefResponse, RespParse};
 use crate::common::net::connect_retry;
+#[cfg(not(hvt))]
 use crate::common::net_app::{start_app, RunningApp};
 use crate::common::refs::parse_imf_fixdate;
 use crate::engine::{hash_of, pt, show, Ctx, Fail, Lcg};
 use humphrey::http::cors::Cors;
 use humphrey::http::method::Method;
-use humphrey::http::{Request, Response, StatusCode};
+use humphrey::http::Request;
+#[cfg(not(hvt))]
+use humphrey::http::{Response, StatusCode};
+#[cfg(not(hvt))]
 use humphrey::App;
 use proptest::prelude::*;
 use serde::{Deserialize, Serialize};
@@ -151,7 +155,23 @@ pub fn big_body() -> Vec<u8> {
     (0..70_000u32).map(|i| (i % 251) as u8).collect()
 }
 
-fn describe(tag: &str, r: &Request) -> Vec<u8> {
+pub type LogEntry = (String, String, String, Vec<u8>);
+
+/// A running server under test (threaded `App` here, tokio `App` in crate hvt).
+pub trait Server {
+    fn addr(&self) -> std::net::SocketAddr;
+    fn log(&self) -> Vec<LogEntry>;
+    fn stop(self: Box<Self>, max: Duration) -> Result<(), String>;
+}
+
+/// (threads, connection timeout, CORS kind, loopback alias) -> running server
+pub type StartFn<'a> = &'a (dyn Fn(usize, bool, u8, &str) -> Result<Box<dyn Server>, String> + Sync);
+
+pub fn log_request(st: &Arc<AppState>, r: &Request) {
+    st.log.lock().unwrap().push((r.method.to_string(), r.uri.clone(), r.query.clone(), r.content.clone().unwrap_or_default()));
+}
+
+pub fn describe(tag: &str, r: &Request) -> Vec<u8> {
     let mut b = format!("{}|{}|{}|{}|", tag, r.method, r.uri, r.query).into_bytes();
     if let Some(c) = &r.content {
         b.extend_from_slice(c);
@@ -175,7 +195,7 @@ pub fn expected_cors(kind: u8) -> Vec<(String, String)> {
     }
 }
 
-fn cors_for(kind: u8) -> Cors {
+pub fn cors_for(kind: u8) -> Cors {
     match kind % 3 {
         0 => Cors::new().with_origin("https://a.example").with_origin("https://b.example").with_method(Method::Get).with_method(Method::Post).with_header("X-Custom").with_header("Content-Type"),
         1 => Cors::wildcard(),
@@ -183,6 +203,33 @@ fn cors_for(kind: u8) -> Cors {
     }
 }
 
+#[cfg(not(hvt))]
+struct SyncServer {
+    running: RunningApp,
+    st: Arc<AppState>,
+}
+
+#[cfg(not(hvt))]
+impl Server for SyncServer {
+    fn addr(&self) -> std::net::SocketAddr {
+        self.running.addr
+    }
+    fn log(&self) -> Vec<LogEntry> {
+        self.st.log.lock().unwrap().clone()
+    }
+    fn stop(self: Box<Self>, max: Duration) -> Result<(), String> {
+        self.running.stop(max).map(|_| ())
+    }
+}
+
+#[cfg(not(hvt))]
+pub fn start_sync(threads: usize, timeout: bool, cors_kind: u8, ip: &str) -> Result<Box<dyn Server>, String> {
+    let (app, st) = build_app(threads, timeout, cors_kind);
+    let running = start_app(app, ip)?;
+    Ok(Box::new(SyncServer { running, st }))
+}
+
+#[cfg(not(hvt))]
 pub fn build_app(threads: usize, timeout: bool, cors_kind: u8) -> (App<AppState>, Arc<AppState>) {
     let app: App<AppState> = App::new_with_config(threads, AppState { log: Mutex::new(Vec::new()) });
     let st = app.get_state();
@@ -579,20 +626,21 @@ fn what_of(st: &Step) -> String {
 }
 
 /// Runs the script against a fresh app. `ip` selects the loopback alias of this shard.
-pub fn run_script(s: &Script, ip: &str) -> Vec<Fail> {
+/// `has_timeout`: whether the runtime under test supports a connection timeout (the tokio App does not).
+pub fn run_script(s: &Script, ip: &str, start: StartFn, has_timeout: bool) -> Vec<Fail> {
     let t0 = Instant::now();
-    let r = run_script_inner(s, ip);
+    let r = run_script_inner(s, ip, start, has_timeout);
     if std::env::var("HV_DEBUG").is_ok() && t0.elapsed() > Duration::from_secs(3) {
         eprintln!("SLOW {:?}: {:?} -> {:?}", t0.elapsed(), serde_json::to_string(s).unwrap(), r.iter().map(|f| &f.sig).collect::<Vec<_>>());
     }
     r
 }
 
-fn run_script_inner(s0: &Script, ip: &str) -> Vec<Fail> {
+fn run_script_inner(s0: &Script, ip: &str, start: StartFn, has_timeout: bool) -> Vec<Fail> {
     // idle steps only make sense with a connection timeout, and scripts with a pipelined boundary run without one
     let mut s = s0.clone();
     let has_pipe = s.pipelined.iter().take(s.steps.len().saturating_sub(1)).any(|p| *p);
-    if !s.timeout || has_pipe {
+    if !s.timeout || has_pipe || !has_timeout {
         s.timeout = false;
         s.steps.retain(|x| !matches!(x, Step::Idle));
         if s.steps.is_empty() {
@@ -602,18 +650,18 @@ fn run_script_inner(s0: &Script, ip: &str) -> Vec<Fail> {
     let s = &s;
     let lenient_from = s.pipelined.iter().take(s.steps.len().saturating_sub(1)).position(|p| *p);
     let use_timeout = s.timeout && lenient_from.is_none();
-    let (app, st) = build_app(s.threads, use_timeout, s.cors_kind);
-    let running: RunningApp = match start_app(app, ip) {
+    let running = match start(s.threads, use_timeout, s.cors_kind, ip) {
         Ok(r) => r,
         Err(e) => return vec![Fail::new("harness-app", e)],
     };
+    let addr = running.addr();
     let mut fails = Vec::new();
     let exp = model(&Script { timeout: use_timeout, ..s.clone() });
     let mut rng = Lcg(match s.seg {
         Seg::Random(seed, _) => seed,
         _ => 1,
     });
-    let mut client = match Client::connect(running.addr) {
+    let mut client = match Client::connect(addr) {
         Ok(c) => c,
         Err(e) => return vec![Fail::new("harness-connect", e)],
     };
@@ -822,7 +870,7 @@ fn run_script_inner(s0: &Script, ip: &str) -> Vec<Fail> {
     // the handler-side log: strict part exactly, lenient part as a subsequence
     if !fails.iter().any(|f| f.sig != "crlf-after-body" && f.sig != "readahead-loss") {
         std::thread::sleep(Duration::from_millis(2));
-        let log = st.log.lock().unwrap().clone();
+        let log = running.log();
         let strict = &log[..log.len().min(expected_log.len())];
         if strict != &expected_log[..] {
             fails.push(fail!("dispatch-log", "handlers were dispatched with {:?} but the client sent {:?}", summarize(&log), summarize(&expected_log)));
@@ -839,7 +887,7 @@ fn run_script_inner(s0: &Script, ip: &str) -> Vec<Fail> {
     // the server must still serve new connections (a panicking handler costs only its own connection)
     if s.steps.iter().any(|x| matches!(x, Step::Request(r) if r.target == Target::Panic)) {
         for k in 0..s.threads + 1 {
-            match crate::common::net::exchange(running.addr, format!("GET /echo?n=after{} HTTP/1.1\r\nHost: x\r\n\r\n", k).as_bytes(), Duration::from_secs(10)) {
+            match crate::common::net::exchange(addr, format!("GET /echo?n=after{} HTTP/1.1\r\nHost: x\r\n\r\n", k).as_bytes(), Duration::from_secs(10)) {
                 Ok(b) if b.starts_with(b"HTTP/1.1 200") => {}
                 Ok(b) => fails.push(fail!("after-panic", "after a handler panic a new connection got {}", show(&b[..b.len().min(80)]))),
                 Err(e) => fails.push(fail!("after-panic", "after a handler panic a new connection failed: {}", e)),
@@ -878,15 +926,15 @@ fn summarize(l: &[(String, String, String, Vec<u8>)]) -> Vec<String> {
 }
 
 /// N panics, then N simultaneous keep-alive connections on an N-thread pool must all be served.
-pub fn pool_recovery(threads: usize, panics: usize, ip: &str) -> Vec<Fail> {
-    let (app, _st) = build_app(threads, false, 0);
-    let running = match start_app(app, ip) {
+pub fn pool_recovery(threads: usize, panics: usize, ip: &str, start: StartFn) -> Vec<Fail> {
+    let running = match start(threads, false, 0, ip) {
         Ok(r) => r,
         Err(e) => return vec![Fail::new("harness-app", e)],
     };
+    let addr = running.addr();
     let mut fails = Vec::new();
     for k in 0..panics {
-        match crate::common::net::exchange(running.addr, format!("GET /panic?n={} HTTP/1.1\r\nHost: x\r\nConnection: keep-alive\r\n\r\n", k).as_bytes(), Duration::from_secs(10)) {
+        match crate::common::net::exchange(addr, format!("GET /panic?n={} HTTP/1.1\r\nHost: x\r\nConnection: keep-alive\r\n\r\n", k).as_bytes(), Duration::from_secs(10)) {
             Ok(b) if b.is_empty() => {}
             Ok(b) => fails.push(fail!("panic-answered", "panicking handler produced bytes: {}", show(&b[..b.len().min(60)]))),
             Err(e) => fails.push(Fail::new("harness-exchange", e)),
@@ -896,7 +944,7 @@ pub fn pool_recovery(threads: usize, panics: usize, ip: &str) -> Vec<Fail> {
     std::thread::sleep(Duration::from_millis(20));
     let mut clients = Vec::new();
     for _ in 0..threads {
-        match Client::connect(running.addr) {
+        match Client::connect(addr) {
             Ok(c) => clients.push(c),
             Err(e) => fails.push(Fail::new("harness-connect", e)),
         }
@@ -934,7 +982,7 @@ pub fn pool_recovery(threads: usize, panics: usize, ip: &str) -> Vec<Fail> {
 
 // ------------------------------------------------------------------------------------------ generator
 
-fn arb_req() -> impl Strategy<Value = Req> {
+pub fn arb_req() -> impl Strategy<Value = Req> {
     (
         prop_oneof![4 => Just("GET"), 3 => Just("POST"), 1 => Just("PUT"), 1 => Just("DELETE"), 2 => Just("OPTIONS")],
         prop_oneof![5 => Just(Target::Echo), 1 => Just(Target::Empty), 2 => Just(Target::Cors), 1 => Just(Target::Panic), 1 => Just(Target::Big), 2 => Just(Target::Unrouted)],
@@ -979,7 +1027,7 @@ pub fn arb_script() -> impl Strategy<Value = Script> {
         })
 }
 
-fn labels_of(s: &Script) -> (bool, Vec<&'static str>) {
+pub fn labels_of(s: &Script) -> (bool, Vec<&'static str>) {
     let mut l = vec!["script"];
     let nreq = s.steps.len();
     if nreq >= 2 {
@@ -1012,6 +1060,7 @@ fn labels_of(s: &Script) -> (bool, Vec<&'static str>) {
     (l.len() > 1, l)
 }
 
+#[cfg(not(hvt))]
 pub fn run(ctx: &Ctx) {
     ctx.rule("connection scripts of 1..6 steps over methods {GET,POST,PUT,DELETE,OPTIONS} x targets {echo, empty body, CORS-configured, panicking handler, 70 KB body, unrouted} x Connection {absent, close, keep-alive in four letter cases} x HTTP/1.0|1.1 x optional Content-Length body (incl. a body that looks like a request, bodies > 8 KiB) x {well-formed, 7 malformed kinds, idle past the timeout}, pool size 1..4, per-request / byte-wise / random segmentation of the client byte stream, sequential or pipelined boundaries; a reference connection model predicts each response (status, version, Date, Server, CORS, Content-Length framing, body) and where the connection closes; closure and keep-alive are decided by probes, not timeouts. Non-trivial = >=2 requests, a split inside a request, or a malformed / timeout / panic / pipelined element; distinct by script");
     ctx.assume("real App on a loopback alias per shard; the client owns its write schedule, the kernel may coalesce segments (coverage, not soundness); pipelined boundaries are judged leniently (known finding readahead-loss); 400/408 responses are only required to carry their status and to be followed by a close; connection timeout 1 s, idle 1.6 s, a stray 408 is inconclusive when the client itself was slow");
@@ -1031,7 +1080,7 @@ pub fn run(ctx: &Ctx) {
                 ctx.sample(labels.last().unwrap(), || {
                     json!({"threads": s.threads, "timeout": s.timeout, "seg": s.seg, "pipelined": s.pipelined, "requests": s.steps.iter().enumerate().map(|(k, st)| match st { Step::Idle => "<idle past timeout>".to_string(), Step::Request(r) => show(&render_request(r, k)[..render_request(r, k).len().min(160)]) }).collect::<Vec<_>>()})
                 });
-                let f = run_script(s, &ip);
+                let f = run_script(s, &ip, &start_sync, true);
                 if let Some(h) = f.iter().find(|x| x.sig.starts_with("harness-")) {
                     ctx.inconclusive(&format!("{}: {}", h.sig, h.detail));
                     return Vec::new();
@@ -1052,7 +1101,7 @@ pub fn run(ctx: &Ctx) {
         let threads = 1 + k % 4;
         let panics = threads + k % 3;
         ctx.case(hash_of(&("recovery", threads, panics, k)), true, &["pool-recovery"]);
-        let f = pool_recovery(threads, panics, &format!("127.0.1.{}", 1 + i));
+        let f = pool_recovery(threads, panics, &format!("127.0.1.{}", 1 + i), &start_sync);
         for x in f {
             if x.sig.starts_with("harness-") {
                 ctx.inconclusive(&x.detail);
@@ -1069,13 +1118,14 @@ pub fn run(ctx: &Ctx) {
     }
 }
 
+#[cfg(not(hvt))]
 pub fn replay(_ctx: &Ctx, kind: &str, case: &J) -> Vec<Fail> {
     match kind {
         "script" => match serde_json::from_value::<Script>(case.clone()) {
-            Ok(s) => run_script(&s, "127.0.1.99"),
+            Ok(s) => run_script(&s, "127.0.1.99", &start_sync, true),
             Err(e) => vec![Fail::new("harness", format!("bad replay case: {}", e))],
         },
-        "recovery" => pool_recovery(case["threads"].as_u64().unwrap_or(1) as usize, case["panics"].as_u64().unwrap_or(1) as usize, "127.0.1.99"),
+        "recovery" => pool_recovery(case["threads"].as_u64().unwrap_or(1) as usize, case["panics"].as_u64().unwrap_or(1) as usize, "127.0.1.99", &start_sync),
         _ => vec![Fail::new("harness", format!("unknown replay kind {}", kind))],
     }
 }
